@@ -39,7 +39,7 @@ def _valid(f):
 
 class ReqModel(LibModel):
     modes = ('sound',)
-    props = ('C02', 'C16')
+    props = ('C02', 'C16', 'C15')
     needs_parent = False
     adds_selected_of = None       # 'self' | 'child' | None
     child_cases = ('none', 'left', 'right', 'other')
@@ -109,6 +109,12 @@ class ReqModel(LibModel):
         s[recv.data['ref']] = z3.Map(Z.OR_D, s[recv.data['ref']], self.ids_of(eng, st, o))
         st.ghost['idsets'] = s
         return [(st, NONE)]
+
+    def obj_idset_union(self, eng, st, recv, args, kwargs, node):
+        # HashedIterable.union(other): a NEW set with the ids of both; neither operand is changed
+        (o,) = args
+        st = st.clone()
+        return [(st, self.new_idset(eng, st, z3.Map(Z.OR_D, st.ghost['idsets'][recv.data['ref']], self.ids_of(eng, st, o))))]
 
     def obj_idset_add(self, eng, st, recv, args, kwargs, node):
         (o,) = args
@@ -364,7 +370,7 @@ class ReqDescriptor(ReqModel):
 class ReqBinary(SiblingMixin, ReqModel):
     qual = 'symbolic:BinaryOperator._required_variables_from_child_'
     cls = 'BinaryOperator'
-    props = ('C02', 'C16', 'C18')
+    props = ('C02', 'C16', 'C18', 'C15')
     right_evaluated_after_left = (True, None)
     # conjunction: false as soon as an operand is false; a true left operand leaves it open; a true right operand (the left
     # one was true then) makes it true
@@ -374,7 +380,7 @@ class ReqBinary(SiblingMixin, ReqModel):
 class ReqOr(SiblingMixin, ReqModel):
     qual = 'symbolic:OR._required_variables_from_child_'
     cls = 'OR'
-    props = ('C02', 'C16', 'C18', 'C12')
+    props = ('C02', 'C16', 'C18', 'C12', 'C15')
     right_evaluated_after_left = (False, None)
     right_concludes = True
     # disjunction (else-if): true as soon as an operand is true; a false left operand leaves it open; a false right operand
